@@ -376,6 +376,63 @@ theorem merge_rejects_overlap (g h : Group) (rs : Bool) (k : Int) (hk : k ∈ h.
     exact ⟨m, hm, hg⟩
   simp [this]
 
+/-! ### merging any number of groups -/
+
+/-- the two-group merge is the n-ary one with a single further group -/
+theorem mergeN_single (g h : Group) (ri rs : Bool) : g.mergeN [h] ri rs = g.merge h ri rs := by
+  unfold Group.mergeN Group.merge
+  simp only [mergeItems]
+  split <;> rename_i h1
+  · split at h1 <;> rename_i c1
+    · cases h1; simp [c1]
+    · split at h1 <;> rename_i c2
+      · cases h1; simp [c1, c2]
+      · cases h1
+  · split at h1 <;> rename_i c1
+    · cases h1
+    · split at h1 <;> rename_i c2
+      · cases h1
+      · cases h1; simp [c1, c2]
+
+theorem mergeItems_ok (g : Group) (ri rs : Bool) (hs : List Group) (acc items : List Member)
+    (h : mergeItems g ri rs acc hs = .ok items) :
+    items = acc ++ hs.flatMap (·.ms) ∧ (rs = false → ∀ x ∈ hs, x.sup = g.sup) := by
+  induction hs generalizing acc with
+  | nil => simp only [mergeItems] at h; cases h; simp
+  | cons x xs ih =>
+    simp only [mergeItems] at h
+    split at h
+    · cases h
+    · split at h <;> rename_i c2
+      · cases h
+      · obtain ⟨e, hs'⟩ := ih _ h
+        refine ⟨by simp [e], fun hrs y hy => ?_⟩
+        rcases List.mem_cons.1 hy with rfl | hy
+        · subst hrs; simp at c2; exact c2.symm
+        · exact hs' hrs y hy
+
+/-- **n-ary merge checks EVERY group**: without `reset_time_support`, a successful merge means every
+merged group — first, middle or last — had the first group's support; so a group with another support
+anywhere in the argument list makes the merge fail instead of silently cutting that group's members -/
+theorem mergeN_supports (g g' : Group) (hs : List Group) (ri : Bool) (hm : g.mergeN hs ri false = .ok g') :
+    ∀ x ∈ hs, x.sup = g.sup := by
+  unfold Group.mergeN at hm
+  split at hm
+  · cases hm
+  · rename_i items hi
+    exact (mergeItems_ok g ri false hs g.ms items hi).2 rfl
+
+/-- **n-ary merge, keys kept**: each member of any of the groups is found under its key -/
+theorem mergeN_member (g g' : Group) (hs : List Group) (rs : Bool) (hm : g.mergeN hs false rs = .ok g') (k : Int) :
+    lookupM k g'.ms = (lookupM k (g.ms ++ hs.flatMap (·.ms))).map (fun s => s.restrictTo g'.sup) := by
+  unfold Group.mergeN at hm
+  split at hm
+  · cases hm
+  · rename_i items hi
+    have e := (mergeItems_ok g false rs hs g.ms items hi).1
+    simp only [Bool.false_eq_true, if_false] at hm
+    rw [new_member _ _ _ _ hm k, e]; simp
+
 /-! ## to_tsd → to_tsgroup -/
 
 theorem insertTK_perm (x : Int × Int) (l : List (Int × Int)) : (insertTK x l).Perm (x :: l) := by
